@@ -36,7 +36,8 @@ RULE = ("Arms: the suite's 6R arm, the five bundled URDFs, random 1..7-joint rev
         "defaulted; restarts on/off, RNG seeded from the case), IKFree, move, move(stationary), setArbitraryHome "
         "(absolute or tool-relative new frame, with/without theta), restoreOriginalEE, randomPos}; all invariants are "
         "checked after every step. Non-trivial: the history has a non-identity base AND (a move or a tool change) "
-        "followed later by an FK, or an FK whose theta lies outside the limits; distinct by digest of the whole case.")
+        "followed later by an FK, or an FK whose theta lies outside the limits (fresh-arm clause: non-identity base or theta "
+        "outside the limits); distinct by digest of the whole case.")
 ASSUMPTIONS = [
     "oracle: vf.oracle (long-double Rodrigues exp, PoE, space/body Jacobians); model screws/home/limits computed from "
     "the spec BEFORE the library constructor runs (URDF arms: read from the arm right after loading at the identity "
@@ -171,7 +172,6 @@ class State:
         self.Ms = [model.M0.copy()]              # candidates for the current home tool pose (base frame)
         self.th = np.zeros(model.n)              # the constructor ends with FK(zeros)
         self.joint_taint = [False] * model.n     # joint frame i went through a near-pi axis-angle round trip
-        self.tool_changed = False
 
     def fk(self, th=None, M=None, B=None):
         return A.model_fk(self.m, self.th if th is None else th, M=self.Ms[0] if M is None else M,
@@ -496,7 +496,6 @@ def step_sethome(arm, st_, tol, ctx, k, op):
         th_cands = [th_ref, st_.th]
         ctx.label("sethome with theta")
     st_.Ms = [M_new]
-    st_.tool_changed = True
     tol.scale = max(tol.scale, A.model_scale(m, B=st_.B, M=M_new))
     # the statement does not say whether setArbitraryHome(theta) moves the arm to theta
     th_arm = np.array(arm._theta, dtype=float).reshape(-1)
